@@ -126,7 +126,7 @@ def rule_shunt(ctx):
         if not rs:
             ctx.fail(f"_get_shunt_results: no store to bus_pq[:, {lc}]")
         Rv = facts.joined_value(rs)
-        if D is None or Rv.shape is sh.TOP:
+        if D is None or facts.undecided(Rv.shape):
             ctx.fail(f"shunt {col}: undecidable")
         # result monomials: strip ppc.bus.VM (must be squared) and compare factor sets
         res = {}
@@ -155,7 +155,7 @@ def rule_zip(ctx):
                 "+ci at degree 1, +cz at degree 2 (P with the *_p coefficients, Q with the *_q ones)")
     vm = facts.sym("ppc.bus.VM", {"vm": 1})
     it, fr = facts.analyse(ctx.repo, "pandapower.pypower.makeSbus:_get_Sload", args={"bus": facts.matrix("bus"), "vm": vm})
-    if fr.ret.shape is sh.TOP:
+    if facts.undecided(fr.ret.shape):
         ctx.fail("_get_Sload: return shape undecidable")
 
     def law(shape, power_atom, ci_atom, cz_atom):
@@ -176,7 +176,7 @@ def rule_zip(ctx):
     for col, pa, ci, cz in (("p_mw", "net.load.p_mw", "net.load.const_i_p_percent", "net.load.const_z_p_percent"),
                             ("q_mvar", "net.load.q_mvar", "net.load.const_i_q_percent", "net.load.const_z_q_percent")):
         hv = it2.heap.get(f"net.res_load.{col}")
-        if hv is None or hv.shape is sh.TOP:
+        if hv is None or facts.undecided(hv.shape):
             ctx.fail(f"write_voltage_dependend_load_results: res_load.{col} undecidable")
         got = law(hv.shape, pa, ci, cz)
         ctx.ob(R, f"{RB}::write_voltage_dependend_load_results::{col}", got == want,
